@@ -576,17 +576,48 @@ HCPcdeflate_write(accrec_t *access_rec, int32 length, const void *data)
 
     /* Check if second stage of initialization has been performed */
     if (deflate_info->acc_init != DFACC_WRITE) {
+        int32  keep_len = deflate_info->offset; /* bytes in front of the write position (an append) */
+        uint8 *keep_buf = NULL;
+
+        /* The encoder below starts a new stream at the beginning of the element: the data in
+           front of the write position has to be decoded first and encoded again, or an append
+           after a seek or a read would drop everything stored before it */
+        if (keep_len > 0) {
+            if ((keep_buf = (uint8 *)malloc((size_t)keep_len)) == NULL)
+                HRETURN_ERROR(DFE_NOSPACE, FAIL);
+            if (HCIcdeflate_term(info, deflate_info->acc_init) == FAIL ||
+                HCIcdeflate_staccess2(access_rec, DFACC_READ) == FAIL || Hseek(info->aid, 0, 0) == FAIL ||
+                HCIcdeflate_decode(info, keep_len, keep_buf) == FAIL) {
+                free(keep_buf);
+                HRETURN_ERROR(DFE_CDECODE, FAIL);
+            }
+        }
+
         /* Terminate the previous method of access */
-        if (HCIcdeflate_term(info, deflate_info->acc_init) == FAIL)
+        if (HCIcdeflate_term(info, deflate_info->acc_init) == FAIL) {
+            free(keep_buf);
             HRETURN_ERROR(DFE_CTERM, FAIL);
+        }
 
         /* Restart access */
-        if (HCIcdeflate_staccess2(access_rec, DFACC_WRITE) == FAIL)
+        if (HCIcdeflate_staccess2(access_rec, DFACC_WRITE) == FAIL) {
+            free(keep_buf);
             HRETURN_ERROR(DFE_CINIT, FAIL);
+        }
 
         /* Go back to the beginning of the data-stream */
-        if (Hseek(info->aid, 0, 0) == FAIL)
+        if (Hseek(info->aid, 0, 0) == FAIL) {
+            free(keep_buf);
             HRETURN_ERROR(DFE_SEEKERROR, FAIL);
+        }
+
+        if (keep_len > 0) {
+            if (HCIcdeflate_encode(info, keep_len, keep_buf) == FAIL) {
+                free(keep_buf);
+                HRETURN_ERROR(DFE_CENCODE, FAIL);
+            }
+            free(keep_buf);
+        }
     } /* end if */
 
     if ((length = HCIcdeflate_encode(info, length, data)) == FAIL)
